@@ -158,6 +158,32 @@ let unwrap = function
   | Panic s -> raise (Model_panic (ocaml_string_of s))
   | OutOfFuel -> raise Model_fuel
 
+let starts_with (p : Stdlib.String.t) (s : Stdlib.String.t) =
+  String.length s >= String.length p && String.sub s 0 (String.length p) = p
+
+
+(* ---------- chords v2 configuration from the dump (CHV2 / CH2 lines) ---------- *)
+let read_chv2 (dump : Stdlib.String.t list) : chv2 option =
+  match List.find_opt (starts_with "CHV2") dump with
+  | None -> None
+  | Some hdr ->
+    let t = mk_toks hdr in
+    ignore (next t);
+    let min_idle = next_n t in
+    let chords = List.map (fun line ->
+      let t = mk_toks line in
+      ignore (next t);
+      let nk = next_int t in
+      let keys = repeat nk (fun () -> next_n t) in
+      let pending = next_n t in
+      let first_rel = next_int t = 1 in
+      let nd = next_int t in
+      let dis = repeat nd (fun () -> next_n t) in
+      let act = read_action t in
+      { c2_action = act; c2_keys = keys; c2_pending = pending; c2_disabled = dis; c2_first_release = first_rel })
+      (List.filter (starts_with "CH2 ") dump) in
+    Some (chv2_init chords min_idle)
+
 (* ---------- layout-level simulation ---------- *)
 let run_lsim (dump : Stdlib.String.t list) (hist : Stdlib.String.t) (out : Buffer.t) =
   match dump with
@@ -170,15 +196,15 @@ let run_lsim (dump : Stdlib.String.t list) (hist : Stdlib.String.t) (out : Buffe
     let quick = next_int t = 1 in
     let pause = next_n t in
     let nlayers = next_int t in
-    let chv2 = next_int t = 1 in
-    if chv2 then Buffer.add_string out "UNSUPPORTED chords_v2\n" else begin
-    let rows = List.map read_row rows in
+    let _chv2 = next_int t = 1 in
+    begin
+    let rows = List.map read_row (List.filter (starts_with "ROW") rows) in
     let src, rest = (match rows with s :: r -> s, r | [] -> failwith "no src row") in
     let rec pair = function a :: b :: r -> (a, b) :: pair r | [] -> [] | _ -> failwith "odd rows" in
     let layers = pair rest in
     if List.length layers <> nlayers then failwith "layer count";
     let cfg = { layers = layers; src_keys = src; trans_v2 = trans_v2; delegate_first = delegate; quick_tap_hold = quick } in
-    let l = ref (init_layout pause) in
+    let l = ref (match read_chv2 dump with Some c -> set_chords2 (Some c) (init_layout pause) | None -> init_layout pause) in
     let tick = ref 0 in
     let last_keys = ref [] in
     (try
@@ -189,11 +215,11 @@ let run_lsim (dump : Stdlib.String.t list) (hist : Stdlib.String.t) (out : Buffe
           | 'p' | 'r' ->
             (match String.split_on_char ',' rest with
              | [x; y] ->
-               l := unwrap (layout_event cfg !l (kind = 'p') (n_of_int (int_of_string x), n_of_int (int_of_string y)))
+               l := unwrap (layout_event2 cfg !l (kind = 'p') (n_of_int (int_of_string x), n_of_int (int_of_string y)))
              | _ -> failwith "bad coord")
           | 't' ->
             for _ = 1 to int_of_string rest do
-              let (l', ce) = unwrap (layout_tick cfg !l) in
+              let (l', ce) = unwrap (layout_tick2 cfg !l) in
               l := l'; incr tick;
               let keys = List.map int_of_n (keycodes l') in
               let ces = (match ce with
@@ -300,9 +326,6 @@ let fmt_ev (e : os_ev) : Stdlib.String.t =
   | Unicode c -> Printf.sprintf "U%d" (i c)
   | Code (c, p) -> Printf.sprintf "C%d,%s" (i c) (if p then "p" else "r")
 
-let starts_with (p : Stdlib.String.t) (s : Stdlib.String.t) =
-  String.length s >= String.length p && String.sub s 0 (String.length p) = p
-
 
 (* ---------- C20: zippychord dictionary from the dump ---------- *)
 let read_zout t : zout =
@@ -340,8 +363,8 @@ let run_ksim (dump : Stdlib.String.t list) (hist : Stdlib.String.t) (out : Buffe
   let quick = next_int t = 1 in
   let pause = next_n t in
   let nlayers = next_int t in
-  let chv2 = next_int t = 1 in
-  if chv2 then Buffer.add_string out "UNSUPPORTED chords_v2\n" else begin
+  let _chv2 = next_int t = 1 in
+  begin
   let rows = List.map read_row (List.filter (starts_with "ROW") dump) in
   let src, rest = (match rows with s :: r -> s, r | [] -> failwith "no src row") in
   let rec pair = function a :: b :: r -> (a, b) :: pair r | [] -> [] | _ -> failwith "odd rows" in
@@ -386,7 +409,7 @@ let run_ksim (dump : Stdlib.String.t list) (hist : Stdlib.String.t) (out : Buffe
               kc_seq_input_mode = seq_mode; kc_seq_timeout = seq_timeout; kc_seq_backtrack_modcancel = seq_bt;
               kc_dyn_max_presses = dyn_max; kc_dyn_replay_recorded = dyn_rec; kc_switch_max_key_timing = smkt;
               kc_mm_smooth_diagonals = mm_smooth; kc_ignore_min = n_of_int 676; kc_ignore_max = n_of_int 685 } in
-  let k = ref (k_init (init_layout pause)) in
+  let k = ref (k_init (match read_chv2 dump with Some c -> set_chords2 (Some c) (init_layout pause) | None -> init_layout pause)) in
   let zc = read_zippy dump in
   let z = ref z_init in
   (* every key press / release kanata emits goes through the zippychord filter *)
